@@ -11,7 +11,7 @@ use crate::refmodel::rlp;
 pub fn record_key(fam: FamId, pairs: &[(Vec<u8>, Vec<u8>)]) -> Option<(Scheme, Vec<u8>)> {
     if fam.is_toy() {
         // (the Scheme tag is meaningless for the toy scheme; callers use `node_id_for` / `independent_verify`)
-        let raw = &pairs.iter().find(|(k, _)| k == b"t")?.1;
+        let raw = &pairs.iter().find(|(k, _)| k.as_slice() == fam.key_name())?.1;
         return match rlp::decode_exact(raw) {
             Ok(rlp::Item::Str(s)) => Some((Scheme::Ed, s)),
             _ => None,
